@@ -246,12 +246,17 @@ def run(ctx):
         n = report_divs(ctx, sc, res, origin[sc["id"]], seen)
         ctx.sample({"scenario": sc["id"], "origin": origin[sc["id"]], "steps": sc.get("steps"),
                     "divergences": [cl.canon_sig(d["signature"]) for d in res.get("divs") or []]}, cap=8)
-        if sc["id"].startswith("ce_") and n == 0:
-            # a counter-example of the model alone is never a verdict: it must reproduce (one repetition for timing)
-            res2 = cl.run_driver(ctx, [sc], race=False, par=1)[sc["id"]]
-            if report_divs(ctx, sc, res2, origin[sc["id"]], seen) == 0:
-                raise vlib.MachineryError("unreproduced counter-example: %s did not diverge on the real broker (model end state %s)" % (
-                    origin[sc["id"]], json.dumps(sc.get("model_end_state"))))
+        if sc["id"].startswith("ce_"):
+            # a behaviour of the model alone is never a verdict: it must reproduce -- and reproduce the predicted divergence
+            want = cl.DEVIATIONS.get(sc["id"][3:])
+            got = {cl.canon_sig(d["signature"]) for d in res.get("divs") or []}
+            if n == 0 or (want and want not in got):
+                res2 = cl.run_driver(ctx, [sc], race=False, par=1)[sc["id"]]      # one repetition (timing)
+                n += report_divs(ctx, sc, res2, origin[sc["id"]], seen)
+                got |= {cl.canon_sig(d["signature"]) for d in res2.get("divs") or []}
+            if n == 0 or (want and want not in got):
+                raise vlib.MachineryError("unreproduced counter-example: %s: predicted %s, observed on the real broker %s (model end state %s)" % (
+                    origin[sc["id"]], want, sorted(got), json.dumps(sc.get("model_end_state"))))
     ctx.cov["scripts_executed"] = nscript
 
     # ---- (4) storms on the -race build + trace validation of the lifecycle events
